@@ -129,7 +129,9 @@ def mechanism(parser, rule, detail, source, extra):
         return "sqlalchemy.parse.column-kwargs-leak-as-entry-keys"
     if rule == "typ-not-expression" and parser in ("docstring", "parse_docstring", "function", "class_") and (
             ":param" in src or ":return" in src or ":rtype" in src or ":type" in src) and any(
-            m in src for m in REST_FOOTER_MARKERS) and klass != "tokens":
+            m in src for m in REST_FOOTER_MARKERS) and klass != "tokens" and ":raises" not in detail:
+        # (a `:raises` field is cut off by the scanner of the unchanged tree and never ends up inside a type: keyed to the
+        # absorbed text, not to the presence of a footer)
         return "docstring.rest.footer-absorbed-into-last-type"
     if klass == "tokens" and parser in ("docstring", "parse_docstring") and rule in (
             "param-name-empty-or-not-str", "typ-empty", "typ-not-expression"):
